@@ -331,3 +331,20 @@ pub fn zlib_stored(data: &[u8], block: usize) -> Vec<u8> {
     out.extend_from_slice(&adler32(data).to_be_bytes());
     out
 }
+
+// ---------------------------------------------------------------- white space
+pub const PDF_WS: &[u8] = &[0, 9, 10, 12, 13, 32];
+pub const ASCII_WS: &[u8] = &[9, 10, 12, 13, 32];
+
+/// insert `ws[(i / every) % ws.len()]` before the byte with index `i` whenever
+/// `i % every == every - 1`; `every == 0` inserts nothing (twin of `Codec.sprinkle`)
+pub fn sprinkle(every: usize, ws: &[u8], bs: &[u8]) -> Vec<u8> {
+    let mut out = Vec::with_capacity(bs.len() + bs.len() / every.max(1) + 1);
+    for (i, &b) in bs.iter().enumerate() {
+        if every != 0 && i % every == every - 1 {
+            out.push(ws[(i / every) % ws.len()]);
+        }
+        out.push(b);
+    }
+    out
+}
